@@ -534,7 +534,14 @@ class Exec:
                 raise Unsupported('unknown attribute %s.%s' % (base[1], attr))
             return r
         if tag(base) == 'ext':
-            return ('ext', base[1] + '.' + attr)
+            full = base[1] + '.' + attr
+            if full in self.prog.modules:
+                return ('module', full)
+            if full in self.prog.funcs:
+                return ('func', full)
+            if full in self.prog.classes:
+                return ('class', full)
+            return ('ext', full)
         pv = st.deref(base)
         if isinstance(pv, SObj):
             if attr in pv.attrs:
